@@ -6,6 +6,10 @@ how it is spelled (local names, temporaries, formatting, statement order).
 This is value numbering on the syntax tree; nothing is executed.
 """
 
+# bodies of helper functions whose calls could not be expanded in the HIR (a `return` inside a loop): path -> fn hir.
+# Dependence analyses follow calls into them (rules/inline.py fills it when the facts are loaded).
+HELPER_HIR = {}
+
 CHILD_KEYS = ("e", "l", "r", "f", "recv", "cond", "then", "else", "init", "body", "expr", "base", "i", "els", "guard")
 LIST_KEYS = ("args", "elems", "stmts")
 
@@ -1245,6 +1249,8 @@ def fold(t, assume, discr=None, helpers=None):
                     def app(clo, *xs):
                         if isinstance(clo, tuple) and clo and clo[0] == "closure" and len(clo[1]) == len(xs):
                             return f(subst(clo[2], {("var", nm): x for nm, x in zip(clo[1], xs)}))
+                        if isinstance(clo, tuple) and len(clo) == 2 and clo[0] == "def":
+                            return f(("call", clo[1], tuple(xs)))       # a function path used as the callback
                         return ("call", "apply", (clo,) + tuple(xs))
                     if meth == "is_none":
                         return ("lit", none)
